@@ -5,6 +5,35 @@ import (
 	"strings"
 )
 
+// kindOfName recovers the obligation kind from an obligation name (for names that are
+// only on record in Registry.Unproved, which keeps no kind).
+func kindOfName(name string) string {
+	i := strings.Index(name, "/")
+	if i < 0 {
+		return ""
+	}
+	rest := name[i+1:]
+	for _, k := range []string{"post", "inv-init", "inv-pres", "variant", "callinv", "panics"} {
+		if strings.HasPrefix(rest, k+"#") {
+			return k
+		}
+	}
+	switch {
+	case strings.HasPrefix(rest, "safe/"):
+		if j := strings.Index(rest, "@"); j > 0 {
+			return rest[:j]
+		}
+	case strings.HasPrefix(rest, "pre@"):
+		return "pre"
+	case strings.HasPrefix(rest, "frame@"):
+		return "frame"
+	}
+	if strings.HasPrefix(name, "lemma/") {
+		return "lemma"
+	}
+	return ""
+}
+
 // assumedUndecided lists the contract-derived obligations (postconditions,
 // invariants, ...) of verified callees that the functions of this check call and
 // that did not discharge when the registry was last rebuilt: a caller is verified
